@@ -857,6 +857,9 @@ class Env:
                 off = e['at'] % (len(report) + 1)
                 if e.get('at_exact') is not None:
                     off = min(e['at_exact'], len(report))
+                # (a cut that only removes trailing white space of the report loses no data:
+                # the parent may use what it got)
+                harmless = off >= len(report.rstrip())
                 if off < len(report):
                     out = []
                     seen = 0
@@ -881,7 +884,8 @@ class Env:
                             out.append(('K', None))
                             past = True
                     newtape = out
-                    complete = False
+                    if not harmless:
+                        complete = False
                     info['channel'].append(('truncate_report', off))
                     self.fired.append('truncate_report')
             elif a == 'kill_after':
@@ -908,6 +912,10 @@ class Env:
                     self.fired.append('kill_after')
             elif a == 'noise':
                 pos = e['pos'] % (len(newtape) + 1)
+                if e.get('after_report'):
+                    # right after the last report record (before the process exits)
+                    last = max([i for i, r_ in enumerate(newtape) if r_[0] in ('E', 'C')] or [0])
+                    pos = last + 1
                 text = e['text'].encode('utf-8')
                 newtape.insert(pos, (e.get('stream', 'E'), text))
                 info['channel'].append(('noise', e.get('stream', 'E'), pos, len(text)))
@@ -916,8 +924,19 @@ class Env:
                 pos = e['pos'] % (len(newtape) + 1)
                 newtape.insert(pos, ('S', e['dt']))
                 self.fired.append('stall')
-        if died is not None:
-            complete = complete and truth is not None
+        # completeness, uniformly for every channel fault: what reaches the pipe after the
+        # child closed its stdout must begin with the whole report (trailing white space aside)
+        delivered = b''
+        seen_close = False
+        for tag, payload in newtape:
+            if tag == 'K':
+                break
+            if tag == 'C':
+                seen_close = True
+            elif tag == 'E' and seen_close:
+                delivered += payload
+        complete = bool(report) and truth is not None and \
+            delivered.startswith(report.rstrip())
         info['report_complete'] = bool(complete)
         # anything on the E stream before the report that parses as three integers?
         pre = b''
